@@ -25,7 +25,9 @@ REACH = {"laws", "hash", "sets"}
 
 KINDS = ["null", "bool", "int", "dec", "str", "pattern", "date", "list"]
 PATTERNS = ["a", "a+", "1"]
-DATES = [_dt.datetime(2000, 1, 1), _dt.datetime(2000, 1, 2)]
+DATES = [_dt.datetime(2000, 1, 1), _dt.datetime(2000, 1, 2),
+         # two dates inside one calendar second (they arise from date arithmetic with fractional days)
+         _dt.datetime(2000, 1, 1, 0, 0, 0, 250000), _dt.datetime(2000, 1, 1, 0, 0, 0, 500000)]
 
 
 def pool():
@@ -33,7 +35,7 @@ def pool():
     return [vint(0), vint(1), vdec(1.0), vint(2), vdec(2.0), vdec(2.5), vint(big), vdec(float(big)),
             vint(big + 1), vint(2 ** 63), vdec(float(2 ** 63)), vint(2 ** 64), vint(-1), vdec(-1.0),
             vstr("a"), vstr("1"), vstr(""), V.TRUE, V.FALSE, V.NULL, vlist([vint(1)]),
-            vlist([vdec(1.0)]), V.ValuePattern("a"), V.ValueDate(DATES[0]), vint(3), vint(11), vstr("11"),
+            vlist([vdec(1.0)]), V.ValuePattern("a"), V.ValueDate(DATES[0]), V.ValueDate(DATES[2]), V.ValueDate(DATES[3]), vint(3), vint(11), vstr("11"),
             vset([vint(1)]), vset([vdec(1.0)]), vmap([(vint(1), vint(2))]), vmap([(vdec(1.0), vdec(2.0))])]
 
 
